@@ -25,6 +25,10 @@ EXTRA = ["(progn (setq h (make-hash-table)) (puthash 'k 1 h) (puthash \"s\" 2 h)
 def history(rng):
     g = ProgGen(rng, max_depth=3)
     h = []
+    if rng.random() < 0.15:
+        # the same text evaluated / loaded twice with a macro it uses redefined in between
+        use = "(list (cm 1) (cm 2))"
+        return ["(defmacro cm (x) (list '+ x 10))", use, "(defmacro cm (x) (list '* x 10))", use, use]
     if rng.random() < 0.6:
         h.append(" ".join(g.defun(2) for _ in range(rng.randint(1, 2))))
     for _ in range(rng.randint(2, 5)):
@@ -36,6 +40,12 @@ def transcript_lines(h, ctx=None, as_file=None, tag=""):
     for k, p in enumerate(h):
         if as_file == "file":
             out.append("LOADFILE c19_%s_%d.lisp %s" % (tag, k, C.esc(p)))
+        elif as_file == "samefile":
+            # every program of the history is written to, and loaded from, THE SAME path
+            out.append("LOADFILE c19_%s_same.lisp %s" % (tag, C.esc(p)))
+        elif as_file == "samenested":
+            out.append("WRITEFILE c19_%s_same_in.lisp %s" % (tag, C.esc(p)))
+            out.append("LOADFILE c19_%s_same_out.lisp %s" % (tag, C.esc('(load "%s")' % os.path.join(SCRATCH, "c19_%s_same_in.lisp" % tag))))
         elif as_file == "nested":
             out.append("WRITEFILE c19_%s_%d_in.lisp %s" % (tag, k, C.esc(p)))
             out.append("LOADFILE c19_%s_%d_out.lisp %s" % (tag, k, C.esc('(load "%s")' % os.path.join(SCRATCH, "c19_%s_%d_in.lisp" % (tag, k)))))
@@ -55,7 +65,7 @@ def generate(tier, seed):
         for name in ("alone", "again"):
             lines.append("NEW"); s = len(lines); lines += transcript_lines(h); grp[name] = list(range(s, len(lines)))
         # (e) from files
-        for name in ("file", "nested"):
+        for name in ("file", "nested", "samefile", "samenested"):
             lines.append("NEW"); s = len(lines)
             tl = transcript_lines(h, as_file=name, tag="%d%s" % (k, name[0]))
             lines += tl
@@ -91,7 +101,7 @@ def oracle(lines, impl, model, meta):
     nt = 0
     for g in groups:
         base = [impl[i] for i in g["alone"]]
-        for name in ("again", "file", "nested", "interleaved"):
+        for name in ("again", "file", "nested", "samefile", "samenested", "interleaved"):
             other = [impl[i] for i in g[name]]
             if other != base:
                 k = next((j for j, (x, y) in enumerate(zip(base, other)) if x != y), 0)
